@@ -610,8 +610,8 @@ class C10(Property):
                     try:
                         if kind == 'i':
                             ln += 1
-                            r = bl.insert(op[1], op[2])
-                            out.append('-' if r is None else '?%r' % (r,))
+                            bl.insert(op[1], op[2])
+                            out.append('-')     # what insert() returns is not part of the statement
                         elif kind == 'p':
                             ln = max(0, ln - 1)
                             out.append(self._val(bl.pop(op[1])))
@@ -662,15 +662,18 @@ class C10(Property):
                 style = op[4] if len(op) > 4 else 0
                 pr = prio_obj(op[2])
                 if style == 2 and pr is None:
-                    r = q.add(t)
+                    q.add(t)
                 elif style == 1:
-                    r = q.add(t, priority=pr)
+                    q.add(t, priority=pr)
                 else:
-                    r = q.add(t, pr)
-                return '-' if r is None else '?%r' % (r,)
+                    q.add(t, pr)
+                # the statement constrains what pop/peek/len return, not what add()/remove() hand back
+                # (None today): a completed call is '-', whatever it returned
+                return '-'
             if kind == 'r':
-                r = q.remove(task_obj(op[1], op[2] if len(op) > 2 else 0))
-                return '-' if r is None else '?%r' % (r,)
+                q.remove(task_obj(op[1], op[2] if len(op) > 2 else 0))
+                return '-'
+
             if kind in 'pPkK':
                 f = q.pop if kind in 'pP' else q.peek
                 if kind in 'PK':
